@@ -9,6 +9,7 @@
 EXTENDS GenReal, TraceBase
 T == INSTANCE Text WITH MAXRUN <- 3, NUMBS <- 31, CAP1 <- 64, CAP2S <- 32, CAP2L <- 64
 S == INSTANCE Stream WITH BUF <- 32768
+CONSTANT LOCKSTEP      \* TRUE: also step the implementation-shaped model L2 and compare (thorough tier)
 VARIABLES l, j, gens
 vars == <<l, j, gens>>
 Ev(k) == l <= NRec /\ Rec[l].ev = k
@@ -24,20 +25,30 @@ Same(x, o) == DOMAIN x \subseteq DOMAIN o /\ x = [f \in DOMAIN x |-> o[f]]
               /\ (x.e = "none" => o.v = TRUE)          \* the returned object passes is_valid() (C11)
 Warn(g) == G!SzLT(IF g.fixed # G!NoSize THEN g.fixed ELSE g.ref.size, <<0, 4097>>)
 
+(* L2 in lock-step: the slice forms (update, += slice, += array) add the whole length up front,
+   the other forms add one per byte - exactly the accounting the elimination test reads *)
+ImplStep(im, form, jj, len, c) ==
+  IF ~LOCKSTEP THEN im
+  ELSE LET slice == form \in {0, 3, 4}
+           im1 == IF slice THEN (IF jj = 0 THEN [im EXCEPT !.size = G!SzAdd(@, G!SzOf(len))] ELSE im)
+                  ELSE [im EXCEPT !.size = G!SzAdd(@, G!SzOf(1))]
+       IN I!IStep(im1, c)
+Drift(cond, info) == IF cond THEN TRUE ELSE PrintT("DRIFT " \o ToJson(info))
 Init == l = 1 /\ j = 0 /\ gens = <<>>
-EvNew == Ev("new") /\ gens' = (E.g :> G!GInit) @@ gens /\ Done
-EvZeros == Ev("zeros") /\ gens' = (E.g :> ZerosState(E.n)) @@ gens /\ Done
+WithImpl(g, im) == [ref |-> g.ref, fixed |-> g.fixed, impl |-> im]
+EvNew == Ev("new") /\ gens' = (E.g :> WithImpl(G!GInit, I!IInit)) @@ gens /\ Done
+EvZeros == Ev("zeros") /\ gens' = (E.g :> WithImpl(ZerosState(E.n), IZerosState(E.n))) @@ gens /\ Done
 EvClone == Ev("clone") /\ gens' = (E.to :> gens[E.g]) @@ gens /\ Done
-EvReset == Ev("reset") /\ gens' = [gens EXCEPT ![E.g] = G!GInit] /\ Done
+EvReset == Ev("reset") /\ gens' = [gens EXCEPT ![E.g] = WithImpl(G!GInit, IF LOCKSTEP THEN I!IReset(@.impl) ELSE @.impl)] /\ Done
 EvUpd == /\ Ev("upd")
          /\ IF j < Len(E.d)
-            THEN /\ gens' = [gens EXCEPT ![E.g] = G!GStep(@, E.d[j + 1])]
+            THEN /\ gens' = [gens EXCEPT ![E.g] = WithImpl(G!GStep(@, E.d[j + 1]), ImplStep(@.impl, E.f, j, Len(E.d), E.d[j + 1]))]
                  /\ IF j + 1 = Len(E.d) THEN Done ELSE (j' = j + 1 /\ l' = l)
             ELSE /\ Len(E.d) = 0 /\ UNCHANGED gens /\ Done
 EvFix == /\ Ev("fix")
          /\ LET r == G!GSetFixedResult(gens[E.g], E.n) IN
             /\ Expect(r = E.r, <<l, "fix", r>>)
-            /\ gens' = [gens EXCEPT ![E.g] = G!GSetFixed(@, E.n)]
+            /\ gens' = [gens EXCEPT ![E.g] = WithImpl(G!GSetFixed(@, E.n), IF LOCKSTEP THEN I!ISetFixed(@.impl, E.n) ELSE @.impl)]
          /\ Done
 EvFin == /\ Ev("fin")
          /\ LET g == gens[E.g]
@@ -49,6 +60,15 @@ EvFin == /\ Ev("fin")
                       (* the string form of finalize() (C01 observe_at, C05) *)
                       /\ E.txt = (IF x.t.e = "none" THEN T!Format([k |-> x.t.k, a |-> x.t.a, b |-> x.t.b]) ELSE <<>>),
                       <<l, "fin", x>>)
+         /\ (LOCKSTEP =>
+              LET im == gens[E.g].impl
+                  ag(tr, lg) == I!IFin(im, tr, lg) = G!GFin(gens[E.g], tr, lg) IN
+              (* the specification's own layers must agree on the real execution (L2 = L1) *)
+              /\ Expect(ag(TRUE, FALSE) /\ ag(FALSE, TRUE) /\ ag(FALSE, FALSE) /\ ag(TRUE, TRUE), <<l, "spec-l2-vs-l1", I!IFin(im, TRUE, TRUE)>>)
+              (* the engine's progress as the implementation reports it: drift is reported, never a verdict *)
+              /\ Drift(E.probe.st = im.st /\ E.probe.en = im.en /\ E.probe.lim = im.lim /\ E.probe.isl = im.isl
+                       /\ \A i \in im.st..(im.en - 1) : E.probe.idx[i + 1] = im.cx[i].idx,
+                       <<l, "engine-progress", [st |-> im.st, en |-> im.en, lim |-> im.lim, isl |-> im.isl]>>))
          /\ UNCHANGED gens /\ Done
 (* hash_buf / hash_stream over the bytes fed to g: both create their own generator;
    hash_buf declares the size (equal to what it then feeds), so both must return the
@@ -58,11 +78,12 @@ EvEasy == /\ (Ev("hashbuf") \/ Ev("hashstream"))
              Expect(Same(x, E.r), <<l, E.ev, x>>)
           /\ UNCHANGED gens /\ Done
 (* a generator that was REALLY fed n zero bytes by update() (too many to step one by one) *)
-EvRealZeros == Ev("realzeros") /\ gens' = (E.g :> ZerosState(E.n)) @@ gens /\ Done
+EvRealZeros == Ev("realzeros") /\ gens' = (E.g :> WithImpl(ZerosState(E.n), IZerosState(E.n))) @@ gens /\ Done
 (* the guarded hook against really feeding zeros: abstract states equal (lemma at real
    constants) and the implementation's inner data compared equal *)
 EvSame == /\ Ev("same")
-          /\ Expect(gens[E.g] = gens[E.h], <<l, "same-spec", "ZerosState(n) differs from n zero steps">>)
+          /\ Expect(gens[E.g].ref = gens[E.h].ref /\ gens[E.g].fixed = gens[E.h].fixed
+                    /\ (LOCKSTEP => gens[E.g].impl = gens[E.h].impl), <<l, "same-spec", "ZerosState(n) differs from n zero steps">>)
           /\ Expect(E.r = TRUE, <<l, "same-hook", "hook state differs from really feeding zeros">>)
           /\ UNCHANGED gens /\ Done
 (* C18: hash_stream over a scripted reader.  E.g holds exactly the bytes the reader delivered
@@ -82,7 +103,7 @@ EvFile == /\ Ev("file")
                       [] E.meta # E.delivered -> E.r.e = "Mismatch"
                       [] OTHER -> gens[E.g].ref.size = E.delivered /\ Same(J(G!RFin(gens[E.g].ref, TRUE, FALSE)), E.r),
                     <<l, "file", E.what>>)
-          /\ UNCHANGED gens /\ Done
+         /\ UNCHANGED gens /\ Done
 Next == EvStream \/ EvFile \/ EvEasy \/ EvRealZeros \/ EvSame \/ EvNew \/ EvZeros \/ EvClone \/ EvReset \/ EvUpd \/ EvFix \/ EvFin
 Spec == Init /\ [][Next]_vars
 Progress == Mark(l)
